@@ -10,11 +10,23 @@
    (C19_user_type_*, session 3; instantiated in the correspondence at Rat, Fp, Wrapping<i64>, the
    user-defined whole-number type `Whole` and i64 — case (19 12 ..)); the remaining routines are
    instantiated at Rat / Fp by the other properties' harnesses and by cases (19 5) (19 6) (19 10)
-   (19 13) — the audit table is in notes/C03_C19.md. *)
+   (19 13) — the audit table is in notes/C03_C19.md.
+   Second extension wave: "floats always succeed with the NEAREST value" is C19_float_nearest +
+   C19_float_bits_denote_the_rounded_count (Model/FloatConv.v, Proofs/C19F.v; integers only, no
+   Flocq, closed under the global context) and the correspondence compares the crate's bit pattern
+   with the model's; Trace<T> as an element type: Model/WrapperNum.v (dictionary incl. the Real
+   functions), C19_trace_dictionary_is_the_forward_model, C19_trace_number_is_a_homomorphism,
+   C19_routines_at_trace_inherit (Proofs/C19W.v), case (19 14 ..) at Trace / Record of Rat / Fp.
+   Still correspondence-only: the operand forms of the primitive types (std), Record<T> as an
+   element type (checked against Trace<T> in the harness), inverse / A*A / euclidean_length at
+   Trace<T> (no homomorphism theorem). *)
 From Coq Require Import List ZArith NArith QArith Bool Ring_theory.
 From EasyML Require Import Base.Sx Model.Num Model.Tape Model.Numeric Proofs.C19P
      Gen.ArithNumeric Proofs.GenNumericP.
 From EasyML Require Import Model.Stats Model.Whole Proofs.C19U.
+From EasyML Require Import Model.FloatConv Proofs.C19F.
+From EasyML Require Import Model.WrapperNum Proofs.C19W.
+From EasyML Require Model.Forward Model.LinAlg.
 Import ListNotations.
 Open Scope Z_scope.
 
@@ -37,6 +49,52 @@ Proof. exact from_usize_boundary. Qed.
 
 Theorem C19_float_always : forall n, exists v, from_usize_float n = Some v.
 Proof. exact float_always. Qed.
+
+(* ---- "floats always succeed with the NEAREST value" (second extension wave).
+   Model/FloatConv.v: `n as f` = round to nearest, ties to even, to a p-bit significand (p = 24
+   for f32, 53 for f64), integer arithmetic only; float_round p n = (m, e) denotes m * 2^e.
+   (1) the answer is a float of precision p (m < 2^p; normalised: e > 0 -> 2^(p-1) <= m);
+   (2) it is a nearest one: EVERY binary float of precision p is m' * 2^z for an integer z, written
+       z = e' - k with e', k >= 0; |answer - n| <= |m' * 2^(e'-k) - n|, both sides multiplied by
+       2^k to stay in Z (fractions and every exponent included; negative floats are farther still,
+       n being >= 0); on a tie with a different float the answer's significand is even;
+   (3) counts below 2^p are exact.
+   The correspondence compares `f32::from_usize(n).to_bits()` / f64 with the model's bit pattern
+   (case (19 1 w 12|13 n)); C19_float_bits_denote_the_rounded_count says that pattern denotes
+   the value (1)-(3) are about and that its exponent field is never the all-ones (infinite) one. *)
+Theorem C19_float_nearest : forall p n, 2 <= p -> 0 <= n ->
+  (0 <= fst (float_round p n) < 2 ^ p /\ 0 <= snd (float_round p n) /\
+   (0 < snd (float_round p n) -> 2 ^ (p - 1) <= fst (float_round p n))) /\
+  (forall m' e' k, 0 <= m' < 2 ^ p -> 0 <= e' -> 0 <= k ->
+     Z.abs (fl_val (float_round p n) * 2 ^ k - n * 2 ^ k) <= Z.abs (m' * 2 ^ e' - n * 2 ^ k) /\
+     (Z.abs (fl_val (float_round p n) * 2 ^ k - n * 2 ^ k) = Z.abs (m' * 2 ^ e' - n * 2 ^ k) ->
+      m' * 2 ^ e' = fl_val (float_round p n) * 2 ^ k \/ Z.even (fst (float_round p n)) = true)) /\
+  (n < 2 ^ p -> float_round p n = (n, 0)).
+Proof.
+  intros p n Hp Hn. split; [exact (float_round_representable p n Hp Hn)|].
+  split; [exact (float_round_nearest p n Hp Hn)|].
+  intros H. apply float_round_exact; [|exact Hn|exact H]. apply Z.le_trans with 2; [discriminate|exact Hp].
+Qed.
+
+Theorem C19_float_bits_denote_the_rounded_count : forall n : N, (n < 18446744073709551616)%N ->
+  f32_bits_of_usize 0 = 0 /\ f64_bits_of_usize 0 = 0 /\
+  ((0 < n)%N ->
+   (ieee_value 23 127 (f32_bits_of_usize n) == inject_Z (fl_val (float_round 24 (Z.of_N n))))%Q /\
+   127 <= f32_bits_of_usize n / 2 ^ 23 <= 191 /\
+   (ieee_value 52 1023 (f64_bits_of_usize n) == inject_Z (fl_val (float_round 53 (Z.of_N n))))%Q /\
+   1023 <= f64_bits_of_usize n / 2 ^ 52 <= 1087).
+Proof. exact usize_float_bits. Qed.
+
+(* non-vacuity: 2^24 + 1 is a tie and goes DOWN to the even neighbour, 2^24 + 3 is a tie and goes
+   UP; usize::MAX carries into the next binade (2^64) in both formats *)
+Example C19_float_nonvacuous :
+  float_round 24 16777217 = (8388608, 1) /\ float_round 24 16777219 = (8388610, 1) /\
+  float_round 24 18446744073709551615 = (8388608, 41) /\
+  float_round 53 18446744073709551615 = (4503599627370496, 12) /\
+  float_round 53 9007199254740993 = (4503599627370496, 1) /\
+  f32_bits_of_usize 16777217 = 1266679808 /\ f64_bits_of_usize 1 = 4607182418800017408 /\
+  f32_bits_of_usize 18446744073709551615 = 1602224128.
+Proof. exact float_round_examples. Qed.
 
 (* Wrapping<T> / Saturating<T> inherit the conversion and the constants *)
 Theorem C19_wrappers_inherit : forall t n,
@@ -242,6 +300,75 @@ Example C19_user_type_nonvacuous :
   covariance_formula Wholeops 4 [2; 4; 6; 8] [1; 3; 2; 6] = 3.
 Proof. exact whole_is_not_a_field. Qed.
 
+(* ---- Trace<T> as an ELEMENT TYPE (second extension wave; Model/WrapperNum.v is the dictionary
+   of Trace<T> over the dictionary of T; case (19 14 ..) runs determinant / inverse / mean /
+   variance / A*A / softmax / euclidean_length / f1_score at Trace<Rat|Fp> AND Record<Rat|Fp>
+   against the routines' models at that dictionary, number and derivative components).
+   The dictionary's derivative rules are those of C05's forward-mode model (Model/Forward.v). *)
+Theorem C19_trace_dictionary_is_the_forward_model : forall R (ops : numops R) (a b : trace R),
+  let W := wrapper_numops ops in
+  fw (nadd W a b) = Forward.t_add ops (fw a) (fw b) /\
+  fw (nsub W a b) = Forward.t_sub ops (fw a) (fw b) /\
+  fw (nmul W a b) = Forward.t_mul ops (fw a) (fw b) /\
+  fw (ndiv W a b) = Forward.t_div ops (fw a) (fw b) /\
+  fw (nneg W a) = Forward.t_neg ops (fw a) /\
+  fw (nsin W a) = Forward.t_sin ops (fw a) /\ fw (ncos W a) = Forward.t_cos ops (fw a) /\
+  fw (nexp W a) = Forward.t_exp ops (fw a) /\ fw (nln W a) = Forward.t_ln ops (fw a) /\
+  fw (nsqrt W a) = Forward.t_sqrt ops (fw a) /\ fw (npow W a b) = Forward.t_pow ops (fw a) (fw b) /\
+  fw (nzero W) = Forward.tconstant ops (nzero ops) /\ fw (none_ W) = Forward.tconstant ops (none_ ops) /\
+  (forall l, fw (fold_left (nadd W) l (nzero W)) = Forward.t_sum ops (map fw l)).
+Proof. exact @wrapper_dictionary_is_forward_model. Qed.
+
+(* "inherit": the number component of every operation of Trace<T> is T's operation on the number
+   components — comparisons and the Real functions included.  Unary minus is `0 - x` (see the
+   verdict on negation in notes/C03_C19.md): it is T's `-x` exactly where 0 - x = -x in T. *)
+Theorem C19_trace_number_is_a_homomorphism : forall R (ops : numops R) (a b : trace R),
+  let W := wrapper_numops ops in
+  tr_number (nzero W) = nzero ops /\ tr_number (none_ W) = none_ ops /\
+  tr_number (nadd W a b) = nadd ops (tr_number a) (tr_number b) /\
+  tr_number (nsub W a b) = nsub ops (tr_number a) (tr_number b) /\
+  tr_number (nmul W a b) = nmul ops (tr_number a) (tr_number b) /\
+  tr_number (ndiv W a b) = ndiv ops (tr_number a) (tr_number b) /\
+  tr_number (nneg W a) = nsub ops (nzero ops) (tr_number a) /\
+  neqb W a b = neqb ops (tr_number a) (tr_number b) /\ nltb W a b = nltb ops (tr_number a) (tr_number b) /\
+  nleb W a b = nleb ops (tr_number a) (tr_number b) /\
+  tr_number (nsqrt W a) = nsqrt ops (tr_number a) /\ tr_number (nexp W a) = nexp ops (tr_number a) /\
+  tr_number (nln W a) = nln ops (tr_number a) /\ tr_number (nsin W a) = nsin ops (tr_number a) /\
+  tr_number (ncos W a) = ncos ops (tr_number a) /\
+  tr_number (npow W a b) = npow ops (tr_number a) (tr_number b) /\
+  tr_number (npi W) = npi ops /\
+  (forall n, option_map (@tr_number R) (nof_N W n) = nof_N ops n).
+Proof. exact @number_is_a_homomorphism. Qed.
+
+(* the generic routines at element type Trace<T> answer, in the number component, what they answer
+   at T on the number components — for every dictionary, no law assumed: mean, variance,
+   f1_score, softmax (Real-bounded), determinant (tensor and matrix route) *)
+Theorem C19_routines_at_trace_inherit : forall R (ops : numops R),
+  let W := wrapper_numops ops in
+  (forall (l : list (trace R)) p r, l <> [] ->
+     omap (@tr_number R) (mean W l) = mean ops (map (@tr_number R) l) /\
+     omap (@tr_number R) (variance W l) = variance ops (map (@tr_number R) l) /\
+     tr_number (f1_score W p r) = f1_score ops (tr_number p) (tr_number r)) /\
+  (forall l : list (trace R),
+     map (@tr_number R) (softmax W l) = softmax ops (map (@tr_number R) l)) /\
+  (forall m : list (list (trace R)),
+     option_map (@tr_number R) (LinAlg.det_tensor W m) =
+       LinAlg.det_tensor ops (map (map (@tr_number R)) m) /\
+     option_map (@tr_number R) (LinAlg.det_matrix W m) =
+       LinAlg.det_matrix ops (map (map (@tr_number R)) m)).
+Proof.
+  intros R ops W. split; [exact (wrapper_mean_variance_f1 ops)|].
+  split; [exact (wrapper_softmax ops)|exact (wrapper_determinant ops)].
+Qed.
+
+(* non-vacuity: over the integers d/da det [[a b] [c d]] = d, and the mean of (3, 1') (5, 0') *)
+Example C19_trace_element_nonvacuous :
+  let W := wrapper_numops ZopsC19 in
+  LinAlg.det_matrix W [[mkTrace 1 1; mkTrace 2 0]; [mkTrace 3 0; mkTrace 5 0]] = Some (mkTrace (-1) 5) /\
+  mean W [mkTrace 4 1; mkTrace 6 0] = Ok (mkTrace 5 0) /\
+  tr_number (nneg W (mkTrace 7 1)) = -7.
+Proof. vm_compute. repeat split. Qed.
+
 (* Pi for f32 / f64: the bit patterns the model names are the floats nearest to pi — every real
    of [3.14159265358979323, 3.14159265358979324] lies within half an ulp of the denoted value *)
 Theorem C19_pi_bits_nearest :
@@ -270,6 +397,8 @@ Print Assumptions C19_from_usize_spec.
 Print Assumptions C19_from_usize_iff.
 Print Assumptions C19_from_usize_boundary.
 Print Assumptions C19_float_always.
+Print Assumptions C19_float_nearest.
+Print Assumptions C19_float_bits_denote_the_rounded_count.
 Print Assumptions C19_wrappers_inherit.
 Print Assumptions C19_identities_plain.
 Print Assumptions C19_identities_wrapping.
@@ -290,6 +419,9 @@ Print Assumptions C19_user_type_mean_variance.
 Print Assumptions C19_user_type_covariance.
 Print Assumptions C19_user_type_f1.
 Print Assumptions C19_pi_bits_nearest.
+Print Assumptions C19_trace_dictionary_is_the_forward_model.
+Print Assumptions C19_trace_number_is_a_homomorphism.
+Print Assumptions C19_routines_at_trace_inherit.
 
 (* ---- appended by the translator builder (notes/GEN.md) ----
    Gen/ArithNumeric.v is REGENERATED from src/numeric.rs by tools/gen_arith.py before the proof
